@@ -433,7 +433,7 @@ def s4(chk: Check, proj: Project, w) -> None:
 
 
 MANIFEST = {
-    "text": "Decides the escape discipline structurally: every part of the html_attrs output passes a sanitizer before the single mark_safe; all mark_safe/SafeString sinks of the package are enumerated and must be reviewed; the typestate of slot content (raw / escaped-once) under escape_content, including that a Slot's function is reused only when it is known escaped; merge order and None/False/True branches; the end-tag refusal is case-insensitive, matches the bare prefix and dominates the wrapping. Also: merge_repeated_kwargs indexes the output list it writes and extends the merged value. Round 4: merge-before-aggregate order, render_to_response forwards every shared argument, Mapping ABC (shared with C11-S6). Round 5: attribute NAMES pass a guard whose regex language covers every character that ends a name (whitespace, quotes, angle brackets, '/', '=') and that dominates every append (F43); attrs override defaults unfiltered.",
+    "text": "Decides the escape discipline structurally: every part of the html_attrs output passes a sanitizer before the single mark_safe; all mark_safe/SafeString sinks of the package are enumerated and must be reviewed; the typestate of slot content (raw / escaped-once) under escape_content, including that a Slot's function is reused only when it is known escaped; merge order and None/False/True branches; the end-tag refusal is case-insensitive, matches the bare prefix and dominates the wrapping. Also: merge_repeated_kwargs indexes the output list it writes and extends the merged value. Round 4: merge-before-aggregate order, render_to_response forwards every shared argument, Mapping ABC (shared with C11-S6). Round 5: attribute NAMES pass a guard whose regex language covers every character that ends a name (whitespace, quotes, angle brackets, '/', '=') and that dominates every append (F43); attrs override defaults unfiltered. Round 7: only None means 'no fill' (shared with C01-S4); a re.sub replacement carrying component text is a function, never a template; conditional_escape (not escape) for slot content.",
     "note": "Trusted: Django's conditional_escape/format_html escape positional arguments unless SafeData; Template/NodeList.render output is safe. Not decided: HTML-parser round trip of arbitrary names; value concatenation semantics.",
     "technique": "static taint/sanitizer discipline, sink audit, typestate on Slot.escaped, dominance of refusal guards, regex language test for the guard pattern",
 }
